@@ -30,7 +30,9 @@ META = {
 PERS = ("v20", "v32", "m800")
 CONNS = (4000, 500)
 
-READ_VALID = ["plain", "plain2.3", "arrs1.ba[1]{40}", "padded1", "str1", "big_int{2100}", "inner1.name", "padded_ary[1].d1"]
+READ_VALID = ["plain", "plain2.3", "arrs1.ba[1]{40}", "padded1", "str1", "big_int{2100}", "inner1.name", "padded_ary[1].d1",
+              # bit numbers sharing digits with the digits a tag name ends in, a {n} count doing the same
+              "plain2.2", "plain3.13", "s20_ary{2}"]
 READ_INVALID = ["nope", "padded1.nope", "plain{x}", "padded_ary[9]", "padded_ary{4}", "padded1.3", "none_tag",
                 # requests that parse locally into a different wire name (bit of an element, BOOL-array element / range) and are refused by the controller
                 "big_int[2100].3", "arrs1.ba[200]", "arrs1.ba[40]{40}"]
@@ -38,7 +40,9 @@ READ_INVALID = ["nope", "padded1.nope", "plain{x}", "padded_ary[9]", "padded_ary
 
 def write_alphabet(proj):
     pv = Q.struct_value(proj.find("padded1").typ, 1)
+    shared = ["a", "bb", "ccc", "dddd", "eeeee"]  # ONE list object offered to two requests that need 2 and 3 of its values; a tuple longer than needed
     valid = [
+        ("s20_ary{2}", shared), ("str_ary{3}", shared), ("padded_ary{2}", (pv, pv, pv)), ("plain2.2", True), ("plain3.13", False),
         ("plain", 5), ("plain2.3", True), ("arrs1.ba[32]{32}", [bool(i % 3) for i in range(32)]), ("padded1", pv), ("str1", "hello"),
         ("big_int{2100}", [(i * 7) % 30000 for i in range(2100)]), ("inner1.name", "abc"), ("padded_ary[1].d1", 7), ("bools1.b3", True),
     ]
@@ -206,11 +210,12 @@ def shards(tier, seed):
                     sh.append(("lists", pers, conn, op, part))
                 sh.append(("straddle", pers, conn, op, 0))
                 sh.append(("refusals", pers, conn, op, 0))
+    sh += [("lists", "v20", 500, "read", 1, "debuglog"), ("lists", "v32", 4000, "write", 2, "debuglog"), ("refusals", "m800", 500, "write", 0, "debuglog")]
     return sh
 
 
 def describe(tier, seed):
-    return {"bounds": {"read_alphabet": len(READ_VALID) + len(READ_INVALID), "write_alphabet": 23, "list_lengths": "1,2,3 (all), 4 (6-request sub-alphabet)", "personalities": PERS, "connection_sizes": CONNS}, "exhaustive": True}
+    return {"bounds": {"read_alphabet": len(READ_VALID) + len(READ_INVALID), "write_alphabet": 28, "list_lengths": "1,2,3 (all), 4 (6-request sub-alphabet)", "personalities": PERS, "connection_sizes": CONNS}, "exhaustive": True}
 
 
 def run_list(rep, cfg, proj, ctl, d, op, lst, alone, sigk):
@@ -315,7 +320,8 @@ def run_shard(shard, tier, seed):
         lists = []
         if part == 0:
             lists += [(i,) for i in range(n)] + [(i, j) for i in range(n) for j in range(n)]
-            sub = [0, 2, 5, n - 1, n - 2, len([x for x in alone["want"] if x])]  # 3 valid (small, BOOL range, fragmented) + 3 invalid
+            sub = [alone["alpha"].index(x) if x in alone["alpha"] else 0 for x in (READ_VALID[0], READ_VALID[2], READ_VALID[5])] if op == "read" else [5, 7, 10]
+            sub = sub + [n - 1, n - 2, len([x for x in alone["want"] if x])]  # 3 valid (small, BOOL range, fragmented) + 3 invalid
             lists += list(itertools.product(sub, repeat=4))
         triples = [(i, j, k) for i in range(n) for j in range(n) for k in range(n)]
         lists += triples[part::4]
@@ -341,7 +347,8 @@ def run_shard(shard, tier, seed):
             proj.restore(pre)
         med = len(alone["alpha"]) - 1
         per_packet = 4 if conn == 500 else 35
-        specials = [len([x for x in alone["want"][:-1] if x]), 5, med]  # first invalid (unknown tag), fragmented, duplicate
+        frag_i = next(i for i, x in enumerate(alone["alpha"]) if (x if op == "read" else x[0]) == "big_int{2100}")
+        specials = [len([x for x in alone["want"][:-1] if x]), frag_i, med]  # first invalid (unknown tag), fragmented, duplicate
         for npk in (1, 2, 3):
             count = per_packet * npk - 1
             for sp in specials:
